@@ -54,7 +54,7 @@ ASSUMPTIONS = ['out-of-phase table is conservative: only (phase, role, type) '
                'visible logs, not packet counts']
 REQUIRED = ['injected', 'oop_judged', 'ended', 'continued_identical',
             'strict_fatal_checked', 'seqreset_checked', 'terrapin_checked',
-            'success_checked']
+            'success_checked', 'stale_scripts']
 BUDGET_S = {'quick': 300, 'thorough': 3400}
 CASE_TIMEOUT_S = 60
 
@@ -225,6 +225,16 @@ def gen_cases(tier, seed):
                       'when': ['with_accept', 'after_failure_idle',
                                'before_accept', 'double'][i % 4],
                       'chunk': rng.choice(['all', 'record', 'random']),
+                      'cseed': rng.randrange(1 << 30)})
+    # method continuation messages (60..79) with no request outstanding:
+    # well-formed and carrying the RIGHT answer
+    scripts = ['kbd_right_after_failure', 'kbd_right_before_request',
+               'kbd_right_after_other_method', 'kbd_right_twice',
+               'kbd_right_after_none']
+    for i in range(len(scripts) * (3 if tier == 'quick' else 30)):
+        cases.append({'kind': 'stale', 'script': scripts[i % len(scripts)],
+                      'chunk': rng.choice(['all', 'record', 'random']),
+                      'pipelined': rng.random() < 0.5,
                       'cseed': rng.randrange(1 << 30)})
     return cases
 
@@ -921,6 +931,126 @@ def _run_success(case, mon, viol):
     return out
 
 
+def _run_stale(case, mon, viol):
+    """A keyboard-interactive INFO_RESPONSE with the right answer, sent when
+       no request is waiting for it, must never authenticate anybody"""
+
+    info = {}
+    rng = random.Random(case['cseed'])
+
+    async def main(loop):
+        rec = []
+
+        class Srv(apps.RecServer):
+            def begin_auth(self, username):
+                return True
+
+            def kbdint_auth_supported(self):
+                return True
+
+            def get_kbdint_challenge(self, username, lang, submethods):
+                rec.append(('challenge', username))
+                return '', '', '', [('Code:', False)]
+
+            def validate_kbdint_response(self, username, responses):
+                rec.append(('validate', username, list(responses)))
+                return list(responses) == ['right']
+
+            def password_auth_supported(self):
+                return True
+
+            def validate_password(self, username, password):
+                rec.append(('password', username))
+                return False
+
+            def auth_completed(self):
+                rec.append(('auth_completed',))
+
+        async with scen.Env(loop, server_factory=lambda: Srv(
+                apps.EventLog()), chunking=case['chunk'],
+                seed=case['cseed']) as env:
+            peer = refpeer.RefPeer('client', loop=loop)
+            await env.wire.create_connection(lambda: peer, 'h', 22)
+            await peer.handshake()
+            await peer.request_service()
+            peer.skip_unimplemented = True
+            replies = []
+
+            async def step(msg, wait=True):
+                if peer.closed:
+                    return
+                peer.send(msg)
+                if wait and not case['pipelined']:
+                    await env.settle()
+                    while not peer.queue.empty():
+                        it = peer.queue.get_nowait()
+                        if it[0] == 'packet':
+                            replies.append(it[2][0])
+                        elif it[0] in ('lost', 'eof'):
+                            peer.queue.put_nowait(it)
+                            break
+
+            def kreq(user=b'user'):
+                return peer.userauth_request(user, b'keyboard-interactive',
+                                             R.sstr(b'') + R.sstr(b''))
+
+            def resp(ans):
+                return bytes([61]) + R.u32(1) + R.sstr(ans)
+
+            sc = case['script']
+            if sc == 'kbd_right_after_failure':
+                await step(kreq())
+                await step(resp(b'wrong'))
+                await step(resp(b'right'))
+            elif sc == 'kbd_right_before_request':
+                await step(resp(b'right'))
+                await step(kreq())
+            elif sc == 'kbd_right_after_other_method':
+                await step(kreq())
+                await step(peer.userauth_request(
+                    b'user', b'password', R.boolean(False) + R.sstr(b'x')))
+                await step(resp(b'right'))
+            elif sc == 'kbd_right_twice':
+                await step(kreq())
+                await step(resp(b'wrong'))
+                await step(resp(b'wrong'))
+                await step(resp(b'right'))
+            else:
+                await step(peer.userauth_request(b'user', b'none', b''))
+                await step(resp(b'right'))
+            await env.settle()
+            while not peer.queue.empty():
+                it = peer.queue.get_nowait()
+                if it[0] == 'packet':
+                    replies.append(it[2][0])
+            mon['injected'] += 1
+            mon['oop_judged'] += 1
+            mon['stale_scripts'] += 1
+            info.update(replies=replies[:12], rec=rec[:8],
+                        closed=peer.closed)
+            if peer.closed:
+                mon['ended'] += 1
+            granted = ('auth_completed',) in rec or \
+                R.MSG_USERAUTH_SUCCESS in replies
+            # only 'kbd_right_after_failure'-style scripts where the right
+            # answer follows a *live* challenge may succeed: none of these do
+            if granted:
+                viol.append({
+                    'mechanism': 'stale_auth_message_accepted',
+                    'detail': f'{sc} pipelined={case["pipelined"]}: '
+                              f'authenticated; server saw {rec}; replies '
+                              f'{replies}'})
+            if not peer.closed:
+                peer.close()
+            await env.settle()
+            for ev in env.san.drain():
+                viol.append({'mechanism': 'sanitizer_' + ev['kind'],
+                             'detail': ev})
+
+    scen.run(main)
+    return info
+
+
 def run_case(case):
     mon = {k: 0 for k in REQUIRED}
     viol = []
@@ -932,6 +1062,8 @@ def run_case(case):
             info = _run_seqreset(case, mon, viol)
         elif case['kind'] == 'terrapin':
             info = _run_terrapin(case, mon, viol)
+        elif case['kind'] == 'stale':
+            info = _run_stale(case, mon, viol)
         else:
             info = _run_success(case, mon, viol)
     except vloop.QuiescentHang as exc:
